@@ -82,6 +82,7 @@ NAME_METHODS = {"importer", "importee", "importer_parent_modules", "importee_par
 NAME_FUNCS = {"get_parent_modules", "_get_module_name", "get_node"}
 STR_REL_METHODS = {"startswith", "endswith", "removeprefix", "removesuffix", "find", "index", "rfind", "rindex", "count", "replace", "partition", "rpartition", "lstrip", "rstrip", "strip"}
 SEARCH_METHODS = {"find", "rfind", "index", "rindex"}
+GRAPH_NEIGHBOURS = {"successors", "predecessors", "neighbors", "all_neighbors", "descendants", "ancestors", "edges", "in_edges", "out_edges", "bfs_tree", "dfs_tree", "bfs_edges", "dfs_edges", "direct_successor_nodes", "direct_predecessor_nodes"}
 WRAPPERS = {"sorted", "list", "set", "reversed", "tuple", "frozenset", "iter"}
 
 # user-supplied patterns matched against names *by design* (regexes in rules) are recognised by role: the pattern is, unmodified,
@@ -2170,7 +2171,164 @@ def _range_nonempty(f: FuncInfo, loop: ast.AST) -> bool:
         return False
 
 
-def _index_values_at(f: FuncInfo, var: str, hay: str, at: ast.AST) -> frozenset | None:
+def _dominating_assign(f: FuncInfo, use: ast.AST, name: str) -> ast.Assign | None:
+    """The plain assignment `name = ..` that precedes the statement of `use` in the same statement list (or in the list around an
+    enclosing if / with / try), with no other store to the name in between: the value the name certainly has at `use`."""
+    st = use if isinstance(use, ast.stmt) else stmt_of(use)
+    while st is not None and st is not f.node:
+        owner = parent(st)
+        blk = next((b for fld in ("body", "orelse", "finalbody") for b in [getattr(owner, fld, None)] if isinstance(b, list) and any(x is st for x in b)), None)
+        if blk is None:
+            return None
+        i = next(k for k, x in enumerate(blk) if x is st)
+        for prev in reversed(blk[:i]):
+            if isinstance(prev, ast.Assign) and len(prev.targets) == 1 and isinstance(prev.targets[0], ast.Name) and prev.targets[0].id == name:
+                return prev
+            if any(isinstance(x, ast.Name) and x.id == name and isinstance(x.ctx, (ast.Store, ast.Del)) for x in ast.walk(prev)):
+                return None
+        if not isinstance(owner, (ast.If, ast.With, ast.AsyncWith, ast.Try)):
+            return None  # (a loop may carry another value around, a function boundary ends the search)
+        st = owner
+    return None
+
+
+def _dominating_unchanged(f: FuncInfo, d: ast.Assign, use: ast.AST, var: str) -> bool:
+    """No store to `var` between the assignment `d` and the statement of `use` (which `d` precedes in one statement list)."""
+    st = use if isinstance(use, ast.stmt) else stmt_of(use)
+    chain = [st, *[a for a in ancestors(st)]]
+    owner = parent(d)
+    blk = next((b for fld in ("body", "orelse", "finalbody") for b in [getattr(owner, fld, None)] if isinstance(b, list) and any(x is d for x in b)), None)
+    if blk is None:
+        return False
+    i = next(k for k, x in enumerate(blk) if x is d)
+    for nxt in blk[i + 1 :]:
+        if any(nxt is c for c in chain):
+            # inside the statement that holds the use: only what precedes the use on the way down matters - be strict
+            inner = [x for x in ast.walk(nxt) if isinstance(x, ast.Name) and x.id == var and isinstance(x.ctx, (ast.Store, ast.Del))]
+            return all(getattr(x, "lineno", 0) >= getattr(st, "lineno", 0) for x in inner)
+        if any(isinstance(x, ast.Name) and x.id == var and isinstance(x.ctx, (ast.Store, ast.Del)) for x in ast.walk(nxt)):
+            return False
+    return False
+
+
+def _memo_candidates(repo: Repo | None, f: FuncInfo, hay: str) -> dict[str, str]:
+    """Dict parameters / locals of `f` that may serve as a memo `prefix of a name -> boundary index of it`: the syntactic part of
+    the check - {dict name: index variable stored into it}. Required: the only mutation of the dict in `f` is `D[key] = v`, always
+    the same local `v`; `v` never grows (it starts at `len(hay)` and is afterwards only assigned `hay.rfind(".", 0, v)`, a read
+    of the memo at `hay[:v]`, or None - so what is stored is never longer than the keys, which are cut at earlier values of `v`);
+    the dict object is created empty and handed to nothing but this function (followed through the parameters of up to 3 callers).
+    That keys are dot-bounded prefixes and values boundary indices is verified by the caller with the interpreted environments."""
+    fn = f.node
+    if repo is None or not isinstance(fn, (ast.FunctionDef, ast.AsyncFunctionDef)):
+        return {}
+    out: dict[str, str] = {}
+    stores: dict[str, list[ast.Assign]] = {}
+    for n in own_nodes(fn):
+        if isinstance(n, ast.Assign) and len(n.targets) == 1 and isinstance(n.targets[0], ast.Subscript) and isinstance(n.targets[0].value, ast.Name) and not isinstance(n.targets[0].slice, ast.Slice):
+            stores.setdefault(n.targets[0].value.id, []).append(n)
+
+    def cut_at(e: ast.expr, v: str, depth: int = 0) -> bool:
+        """`e` is hay[:v] (directly or a local whose every assignment is that)."""
+        if isinstance(e, ast.Subscript) and isinstance(e.slice, ast.Slice) and e.slice.lower is None and e.slice.step is None and isinstance(e.slice.upper, ast.Name) and e.slice.upper.id == v and norm(e.value) == hay:
+            return True
+        if isinstance(e, ast.Name) and depth < 2 and e.id not in f.param_names:
+            d_ = _dominating_assign(f, e, e.id)
+            # (the index variable must not change between the cut and the use either)
+            return d_ is not None and cut_at(d_.value, v, depth + 1) and _dominating_unchanged(f, d_, e, v)
+        return False
+
+    def never_grows(e: ast.expr, v: str, D: str, first: bool, depth: int = 0) -> bool:
+        if depth > 3:
+            return False
+        if isinstance(e, ast.Constant) and e.value is None:
+            return True
+        if isinstance(e, ast.Call) and _call_name(e) == "len" and len(e.args) == 1 and norm(e.args[0]) == hay:
+            return first
+        if isinstance(e, ast.Call) and isinstance(e.func, ast.Attribute) and e.func.attr == "rfind" and norm(e.func.value) == hay and len(e.args) == 3 and _const_str(e.args[0]) == "." and isinstance(e.args[1], ast.Constant) and e.args[1].value == 0 and isinstance(e.args[2], ast.Name) and e.args[2].id == v:
+            return True
+        if isinstance(e, ast.IfExp):
+            return never_grows(e.body, v, D, False, depth + 1) and never_grows(e.orelse, v, D, False, depth + 1)
+        if isinstance(e, ast.Subscript) and isinstance(e.value, ast.Name) and e.value.id == D and not isinstance(e.slice, ast.Slice):
+            return cut_at(e.slice, v)
+        if isinstance(e, ast.Name) and e.id != v and e.id not in f.param_names:
+            vals = [a.value for a in own_nodes(fn) if isinstance(a, (ast.Assign, ast.AnnAssign)) and a.value is not None and any(isinstance(t, ast.Name) and t.id == e.id for t in (a.targets if isinstance(a, ast.Assign) else [a.target]))]
+            others = [x for x in own_nodes(fn) if isinstance(x, ast.Name) and x.id == e.id and isinstance(x.ctx, ast.Store)]
+            return bool(vals) and len(vals) == len(others) and all(never_grows(x, v, D, False, depth + 1) for x in vals)
+        return False
+
+    def created_empty_for(g: FuncInfo, param: str, depth: int = 0) -> bool:
+        """Every caller passes a dict it created empty (or received the same way) and uses for nothing else."""
+        if depth > 3:
+            return False
+        sites = _callers_args(repo, g, param)
+        if not sites:
+            return False
+        for h, a in sites:
+            if not isinstance(a, ast.Name) or isinstance(h.node, ast.Lambda):
+                return False
+            loads = [x for x in own_nodes(h.node) if isinstance(x, ast.Name) and x.id == a.id and isinstance(x.ctx, ast.Load)]
+            for x in loads:
+                c = parent(x)
+                if not (isinstance(c, ast.Call) and (x in c.args or any(k.value is x for k in c.keywords))):
+                    return False
+                cs = origins(repo)._callees(h, c)
+                if len(cs) != 1 or cs[0].fq != g.fq:
+                    return False
+            if a.id in h.param_names:
+                if not created_empty_for(h, a.id, depth + 1):
+                    return False
+                continue
+            binds = [b for b in own_nodes(h.node) if isinstance(b, (ast.Assign, ast.AnnAssign)) and b.value is not None and any(isinstance(t, ast.Name) and t.id == a.id for t in (b.targets if isinstance(b, ast.Assign) else [b.target]))]
+            stores_ = [x for x in own_nodes(h.node) if isinstance(x, ast.Name) and x.id == a.id and isinstance(x.ctx, ast.Store)]
+            if len(binds) != 1 or len(stores_) != 1:
+                return False
+            v = binds[0].value
+            if not ((isinstance(v, ast.Dict) and not v.keys) or (isinstance(v, ast.Call) and _call_name(v) == "dict" and not v.args and not v.keywords)):
+                return False
+        return True
+
+    for D, writes in stores.items():
+        vs = {norm(w.value) for w in writes if isinstance(w.value, ast.Name)}
+        if len(vs) != 1 or not all(isinstance(w.value, ast.Name) for w in writes):
+            continue
+        v = writes[0].value.id
+        if v in f.param_names:
+            continue
+        # no other mutation / rebinding of the dict
+        bad = False
+        for x in own_nodes(fn):
+            if isinstance(x, ast.Name) and x.id == D:
+                p_ = parent(x)
+                if isinstance(x.ctx, (ast.Store, ast.Del)):
+                    bad = True
+                elif isinstance(p_, ast.Subscript) and p_.value is x:
+                    if isinstance(p_.ctx, ast.Del):
+                        bad = True
+                elif isinstance(p_, ast.Compare) and x in p_.comparators and all(isinstance(o, (ast.In, ast.NotIn)) for o in p_.ops):
+                    pass
+                else:
+                    bad = True  # handed on, iterated, a method is called on it ...
+        if bad:
+            continue
+        assigns = [a for a in own_nodes(fn) if isinstance(a, (ast.Assign, ast.AnnAssign)) and a.value is not None and any(isinstance(t, ast.Name) and t.id == v for t in (a.targets if isinstance(a, ast.Assign) else [a.target]))]
+        stores_v = [x for x in own_nodes(fn) if isinstance(x, ast.Name) and x.id == v and isinstance(x.ctx, ast.Store)]
+        if not assigns or len(assigns) != len(stores_v):
+            continue
+        assigns.sort(key=lambda a: a.lineno)
+        if assigns[0] not in fn.body:
+            continue  # (the initial value is assigned once, before any loop)
+        if not all(never_grows(a.value, v, D, i == 0) for i, a in enumerate(assigns)):
+            continue
+        if D in f.param_names:
+            if not created_empty_for(f, D):
+                continue
+        else:
+            continue  # (a local memo is empty in every call: nothing to read)
+        out[D] = v
+    return out
+
+
+def _index_values_at(f: FuncInfo, var: str, hay: str, at: ast.AST, repo: Repo | None = None) -> frozenset | None:
     """Which kinds of values the index variable `var` can hold when the statement that contains `at` is reached - a small
     path-sensitive interpretation of the function body. Every local is mapped to a set of kinds: neg (-1: separator not found /
     sentinel), zero (constant 0), sep (position of a '.' of `hay`: find / rfind result that is not -1, index / rindex),
@@ -2186,6 +2344,9 @@ def _index_values_at(f: FuncInfo, var: str, hay: str, at: ast.AST) -> frozenset 
     if target is None:
         return None
     OTHER = frozenset({"other"})
+    MEMO_VALUE = frozenset({"sep", "len", "none"})  # what a verified memo `prefix of the name -> boundary index of it | None` holds
+    memos: dict[str, str] = dict(_memo_candidates(repo, f, hay))  # assumed while interpreting, verified afterwards
+    all_at: dict[int, dict] = {}
     HAS_DOT, YES, NO, BOTH = "<'.' in name>", frozenset({"yes"}), frozenset({"no"}), frozenset({"yes", "no"})
     WHOLE = "<results of whole-name searches>"  # the locals that hold the result of `name.find(".")` / `name.rfind(".")` without bounds
     seen_at: list = [None]
@@ -2209,7 +2370,7 @@ def _index_values_at(f: FuncInfo, var: str, hay: str, at: ast.AST) -> frozenset 
         """Some value of this kind makes `value <op> k` evaluate to `want`."""
         table = {ast.Lt: lambda x: x < k, ast.LtE: lambda x: x <= k, ast.Gt: lambda x: x > k, ast.GtE: lambda x: x >= k, ast.Eq: lambda x: x == k, ast.NotEq: lambda x: x != k}
         fn_ = table.get(op)
-        if fn_ is None or kind == "other":
+        if fn_ is None or kind in ("other", "none"):
             return True
         if kind == "neg":
             return fn_(-1) is want
@@ -2255,6 +2416,10 @@ def _index_values_at(f: FuncInfo, var: str, hay: str, at: ast.AST) -> frozenset 
             return frozenset(k), bind_walrus(v, env)
         if isinstance(v, ast.Call) and isinstance(v.func, ast.Name) and v.func.id == "len" and len(v.args) == 1 and not v.keywords and norm(v.args[0]) == hay:
             return frozenset({"len"}), env
+        if isinstance(v, ast.Constant) and v.value is None:
+            return frozenset({"none"}), env
+        if isinstance(v, ast.Subscript) and isinstance(v.value, ast.Name) and v.value.id in memos and not isinstance(v.slice, ast.Slice):
+            return MEMO_VALUE, bind_walrus(v.slice, env)
         if isinstance(v, ast.Call) and isinstance(v.func, ast.Name) and v.func.id == "max" and len(v.args) == 2 and not v.keywords and any(isinstance(a, ast.Constant) and a.value == 0 and not isinstance(a.value, bool) for a in v.args):
             inner = next(a for a in v.args if not (isinstance(a, ast.Constant) and a.value == 0))
             k, env = value(inner, env)
@@ -2309,6 +2474,12 @@ def _index_values_at(f: FuncInfo, var: str, hay: str, at: ast.AST) -> frozenset 
                     return None
                 env[w] = kept
             return env
+        if isinstance(test, ast.Compare) and len(test.ops) == 1 and isinstance(test.ops[0], (ast.Is, ast.IsNot, ast.Eq, ast.NotEq)):
+            for x, y in ((test.left, test.comparators[0]), (test.comparators[0], test.left)):
+                if isinstance(y, ast.Constant) and y.value is None and isinstance(x, ast.Name) and x.id in env and x.id not in poisoned:
+                    is_none = isinstance(test.ops[0], (ast.Is, ast.Eq)) is want
+                    kept = frozenset(k for k in env[x.id] if (k in ("none", "other")) or not is_none) if is_none else frozenset(k for k in env[x.id] if k != "none")
+                    return {**env, x.id: kept} if kept else None
         if isinstance(test, ast.Compare) and len(test.ops) == 1:
             l, op, r = test.left, type(test.ops[0]), test.comparators[0]
             for x, y, flip in ((l, r, False), (r, l, True)):
@@ -2374,6 +2545,7 @@ def _index_values_at(f: FuncInfo, var: str, hay: str, at: ast.AST) -> frozenset 
         return join_env(e_out, brk_all), e_b, e_c
 
     def stmt(s: ast.stmt, env):
+        all_at[id(s)] = join_env(all_at.get(id(s)), env)
         if s is target and not isinstance(s, (ast.While, ast.For, ast.AsyncFor)):
             seen_at[0] = join_env(seen_at[0], env)
         if isinstance(s, (ast.FunctionDef, ast.AsyncFunctionDef, ast.ClassDef)):
@@ -2461,10 +2633,63 @@ def _index_values_at(f: FuncInfo, var: str, hay: str, at: ast.AST) -> frozenset 
         k, _e = value(v, {})
         return k
 
-    try:
-        block(fn.body, {})
-    except (_GiveUp, RecursionError):
-        return None
+    def kinds_before(st_: ast.AST, v: str) -> frozenset:
+        e_ = all_at.get(id(st_))
+        return get(e_, v) if e_ is not None else OTHER
+
+    def prefix_cut_ok(e: ast.expr, st_: ast.AST, depth: int = 0) -> bool:
+        """`e`, evaluated at statement `st_`, is a prefix of the name that ends at a separator or is the whole name."""
+        if isinstance(e, ast.Subscript) and isinstance(e.slice, ast.Slice) and e.slice.lower is None and e.slice.step is None and isinstance(e.slice.upper, ast.Name) and norm(e.value) == hay:
+            return kinds_before(st_, e.slice.upper.id) <= {"sep", "len"} and bool(kinds_before(st_, e.slice.upper.id))
+        if isinstance(e, ast.Name) and depth < 2 and e.id not in f.param_names:
+            # the variable of a loop over a list that only ever receives such prefixes
+            for a in ancestors(st_):
+                if a is fn:
+                    break
+                if isinstance(a, (ast.For, ast.AsyncFor)) and isinstance(a.target, ast.Name) and a.target.id == e.id and isinstance(a.iter, ast.Name) and not any(st_ is x or any(st_ is y for y in ast.walk(x)) for x in a.orelse):
+                    L = a.iter.id
+                    if L in f.param_names:
+                        return False
+                    appends = []
+                    for x in own_nodes(fn):
+                        if isinstance(x, ast.Name) and x.id == L:
+                            p_ = parent(x)
+                            if isinstance(x.ctx, ast.Store):
+                                asg = parent(x)
+                                if not (isinstance(asg, (ast.Assign, ast.AnnAssign)) and isinstance(asg.value, ast.List) and not asg.value.elts):
+                                    return False
+                            elif isinstance(p_, ast.Attribute) and p_.attr == "append" and isinstance(parent(p_), ast.Call) and len(parent(p_).args) == 1:
+                                appends.append(parent(p_))
+                            elif x is a.iter:
+                                pass
+                            else:
+                                return False
+                    return bool(appends) and all(prefix_cut_ok(c.args[0], stmt_of(c), depth + 1) for c in appends)
+            d_ = _dominating_assign(f, st_, e.id)
+            if d_ is None or not isinstance(d_.value, ast.Subscript) or not isinstance(d_.value.slice, ast.Slice) or not isinstance(d_.value.slice.upper, ast.Name):
+                return False
+            return prefix_cut_ok(d_.value, d_, depth + 1)  # (the prefix was cut where it was assigned)
+        return False
+
+    for _round in range(len(memos) + 1):
+        all_at.clear()
+        seen_at[0] = None
+        try:
+            block(fn.body, {})
+        except (_GiveUp, RecursionError):
+            return None
+        failed = None
+        for D, v in memos.items():
+            for w in [n_ for n_ in own_nodes(fn) if isinstance(n_, ast.Assign) and len(n_.targets) == 1 and isinstance(n_.targets[0], ast.Subscript) and isinstance(n_.targets[0].value, ast.Name) and n_.targets[0].value.id == D]:
+                kv = kinds_before(w, v)
+                if not kv or not kv <= MEMO_VALUE or not prefix_cut_ok(w.targets[0].slice, w):
+                    failed = D
+                    break
+            if failed:
+                break
+        if failed is None:
+            break
+        del memos[failed]  # not a memo of boundary indices: its values are unknown - interpret again without it
     env_at = seen_at[0]
     if env_at is None:
         return None
@@ -2496,7 +2721,7 @@ def _boundary_index_var(repo: Repo, f: FuncInfo, var: str, hay: str, at: ast.AST
         # decided by the reaching values alone
         if not binds or any(kind != "value" for kind, _src, _p in binds):
             return None
-        kinds = _index_values_at(f, var, hay, at)
+        kinds = _index_values_at(f, var, hay, at, repo)
         if not kinds or not (kinds & {"sep", "neg", "len"}):
             return None
         if "neg" not in kinds or (nonneg and "zero" not in kinds):
@@ -2505,7 +2730,7 @@ def _boundary_index_var(repo: Repo, f: FuncInfo, var: str, hay: str, at: ast.AST
     if nonneg or _found_guard(repo, f, at, hay, {var}):
         return "safe"
     # reaching values: on every path to the cut the not-found result was replaced (`if i < 0: i = len(name)`) or excluded
-    kinds = _index_values_at(f, var, hay, at)
+    kinds = _index_values_at(f, var, hay, at, repo)
     if kinds and "neg" not in kinds:
         return "safe"
     return "unsafe"
@@ -3846,6 +4071,16 @@ def _slice_by_len(repo: Repo, f: FuncInfo, n: ast.AST, other_e: ast.expr, bounda
                     verdicts.append("unknown")
             if verdicts and all(v == "safe" for v in verdicts):
                 return "safe", "every caller establishes, by a relation predicate of the same object, that the argument is the name or one of its ancestors"
+    # no string test at all, and the name was reached along graph edges: `for m in walk_of_successors(p): label(m[len(p):])`
+    if depth == 0:
+        try:
+            edge = next((x for _g, x, kind in origins(repo).value(f, hay_e) if kind == "elem" and isinstance(x, ast.Call) and isinstance(x.func, ast.Attribute) and x.func.attr in GRAPH_NEIGHBOURS), None)
+        except RecursionError:
+            raise
+        except Exception:  # noqa: BLE001
+            edge = None
+        if edge is not None:
+            return "unsafe", f"`{norm(n, 60)}` cuts a module name at the length of another one, and no test on the two strings establishes that the name is that module or lies below it by whole dotted components: `{hay}` is reached along graph edges (`{norm(edge, 50)}`), which relate nodes, not names - wherever an edge joins two names that are not dotted parent and child, the cut takes an unrelated piece of the name"
     return "unknown", f"`{norm(n, 60)}`: no test relating `{hay}` and `{other}` found on the paths to this slice"
 
 
